@@ -116,7 +116,7 @@ package keeper
 //@   requires params != nil
 //@   flag noframe
 //@   flag pure=GetAVSInfo,GetEpochInfo,GetAVSInfoByTaskAddress,ValidateAssetIDs,ChainIDWithoutRevision,Contains,NewDecWithPrec
-//@   before[C10.uai.taskaddr] GetAVSInfoByTaskAddress requires arg_taskAddr == params.TaskAddr
+//@   before[C10.uai.taskaddr,C20.uai.taskaddr] GetAVSInfoByTaskAddress requires arg_taskAddr == params.TaskAddr
 
 // ---------------------------------------------------------------------------------------------
 // C20 (statistics of a task are taken at the end of ITS statistical period): the results collected at the end of epoch
@@ -133,3 +133,10 @@ package keeper
 //@   ensures[C20.gtse.excl] !(defined(res_GetTaskInfo_0) && res_GetTaskInfo_1 == nil && res_GetTaskInfo_0 != nil && gtseSmall(res_GetTaskInfo_0) &&
 //@        gtseDue(res_GetTaskInfo_0, epochIdentifier, epochNumber, res_GetAVSInfoByTaskAddress_0)) && 
 //@        (defined(res_GetTaskInfo_0) && res_GetTaskInfo_0 != nil ==> gtseSmall(res_GetTaskInfo_0)) ==> final_taskResList == taskResList
+
+// C20 (a result can be challenged once per operator and task): the challenge is recorded under the key the "already
+// challenged" check reads - operator, task contract, task id - and holds the challenger.
+//@ func (*Keeper).SetTaskChallengedInfo
+//@   flag noframe
+//@   flag pure=AccAddressFromBech32,FormatUint
+//@   before[C20.stci.key] prefix.Store).Set requires arg1 == join(operatorAddress, res_String_0, res_FormatUint_0) && arg2 == res_AccAddressFromBech32_0
